@@ -26,3 +26,21 @@ claim("C08", "proof",
       "closed-form table vs generated definition by canonical-form identity (R-TABLE-YLM); dispatcher exhaustiveness "
       "(R-DISPATCH); library call-convention table (R-ANGLE); import resolution (R-API)",
       "DESIGN.md section 4, C08")
+
+claim("C03", "other",
+      "Decides the structural clauses of the property for all inputs: (i) species-pair -> column classification, "
+      "exhaustively for K=2..5 - the selector of every np.histogram call site is evaluated on all 54 ordered (type_i,type_j) "
+      "pairs and exactly the column gr{min}{max} must be selected; (ii) every one of the 39 normalisation statements, reduced "
+      "through __init__ to a monomial in (count, V, N, N_a, T, shell volume), equals 2cV/(N_a^2 T shell) on the diagonal and "
+      "cV/(N_a N_b T shell) off it; bins = int(L_min/(2 rdelta)), range (0, maxbin*rdelta), r = bin centre; (iii) the pair loop "
+      "visits each unordered pair of each frame once with type slices aligned to distance slices; (iv) the minimum image uses "
+      "the same frame's cell and the instance mask; (v) dispatch on K incl. K>5 -> total only; (vi) CSV written from the "
+      "returned frame after normalisation. The identity total = sum c_a c_b g_ab is a consequence of (i)+(ii) in exact "
+      "arithmetic. Not decided: np.histogram's bin-edge semantics, floating-point binning, type ids outside 1..K.",
+      "Trusted: numpy histogram/norm semantics, the idiom tables of pmsa/checks/grlib.py (forms of selectors, of the pair "
+      "difference and of the row-wise norm that are recognised; anything else is reported as ANALYSIS-ERROR, not as a "
+      "violation), sympy rational-function arithmetic. remove_pbc itself is decided under C02.",
+      "finite decision table over species pairs (R-SEL), value-graph normal forms of normalisation monomials (R-ALG), "
+      "index-set alignment and loop-domain rules (R-ALIGN, R-LOOPDOM), call-site argument roles (R-PBC), dispatcher table, "
+      "save-site ordering (R-SAVE)",
+      "DESIGN.md section 4, C03")
